@@ -133,6 +133,11 @@ def corpus_cases(weakly):
     cs.append(make_case("corp-costinv", 6, [(1, And(And(V(1), V(2)), V(3)), V(0)), (2, V(4), V(0))],
                         [(1, V(5), And(And(And(V(0), Not(And(And(V(1), V(2)), V(3)))), Or(And(And(Not(V(1)), Not(V(2))), Not(V(3))), Not(V(4)))), Or(V(5), Not(V(4))))),
                          (2, V(4), V(0))], weakly))
+    # the same conditional twice: the lexicographic count sees two falsified conditionals (conditionals-compared-by-text seed)
+    alt2 = Or(And(V(0), Not(V(1))), And(Not(V(0)), V(1)))
+    cs.append(make_case("corp-dupcount", 3, [(1, V(0), T), (2, V(0), T), (3, V(1), T)], [(1, V(0), alt2), (2, V(1), alt2), (3, V(0), T)], weakly))
+    cs.append(make_case("corp-dupcount2", 4, [(1, V(1), V(0)), (2, V(2), V(1)), (3, V(2), V(1)), (4, V(3), V(1)), (5, Not(V(2)), V(0))],
+                        [(1, V(3), And(V(1), Or(And(V(2), Not(V(3))), And(Not(V(2)), V(3))))), (2, V(2), And(V(1), Or(And(V(2), Not(V(3))), And(Not(V(2)), V(3)))))], weakly))
     # redundant specialisation whose impact may be 0 (c-inference cross-pruning seed)
     cs.append(make_case("corp-redundant", 3, [(1, V(1), V(0)), (2, V(1), And(V(0), V(2)))], [(1, Not(V(2)), And(V(0), Not(V(1)))), (2, V(2), And(V(0), Not(V(1)))), (3, V(1), V(0))], weakly))
     # unfalsifiable conditional
